@@ -226,6 +226,32 @@ func checkWireSliceBounds(c *core.Ctx, rule string, fns []*ssa.Function) int {
 				if !bounded {
 					for _, cd := range ir.Conds(fn) {
 						cmp, isB := cd.V.(*ssa.BinOp)
+						// the count-down form: remaining := count; remaining != 0 (or > 0); remaining-- — in the
+						// count's own unsigned width it runs exactly `count` times
+						if isB && (cmp.Op == token.NEQ || cmp.Op == token.GTR) {
+							if dphi, isPhi := cmp.X.(*ssa.Phi); isPhi && len(dphi.Edges) == 2 {
+								if k0, isK := ir.ConstInt(cmp.Y); isK && k0 == 0 {
+									fromRoot, down := false, false
+									for _, e := range dphi.Edges {
+										if e == root {
+											fromRoot = true
+										}
+										if bo, isBo := e.(*ssa.BinOp); isBo && bo.Op == token.SUB && bo.X == ssa.Value(dphi) {
+											if k, isK1 := ir.ConstInt(bo.Y); isK1 && k == 1 {
+												down = true
+											}
+										}
+									}
+									if bt, isBasic := dphi.Type().Underlying().(*types.Basic); fromRoot && down && isBasic && bt.Info()&types.IsUnsigned != 0 {
+										exit := cd.If.Block().Succs[cd.FalseIdx()]
+										if exit == sl.Block() || exit.Dominates(sl.Block()) {
+											bounded = true
+											how = "unsigned count-down loop completed"
+										}
+									}
+								}
+							}
+						}
 						// i < count, or i != count for a counter that starts at 0 and steps by one
 						if !isB || (cmp.Op != token.LSS && cmp.Op != token.NEQ) {
 							continue
